@@ -19,7 +19,12 @@ import (
 
 var c20Ops = []string{"none", "dup-id", "dup-destination", "shadow-id-before", "shadow-id-after", "shadow-all-after", "second-issuer-last", "second-issuer-first", "issuer-after-status",
 	"nested-issuer", "foreign-ns-issuer", "comment-in-issuer", "cdata-in-issuer", "charref-in-issuer", "whitespace-around-issuer", "xml-decl-and-comment", "dup-version", "dup-inresponseto", "issuer-empty-then-real", "trailing-issuer", "pi-in-issuer", "pi-before-issuer-text", "envelope-issuer-differs",
-	"encrypted-issuer-after-issuer", "encrypted-issuer-last", "encrypted-issuer-first", "encrypted-status-last"}
+	"encrypted-issuer-after-issuer", "encrypted-issuer-last", "encrypted-issuer-first", "encrypted-status-last",
+	"nsdecl-id-after", "nsdecl-id-before", "nsdecl-all-after"}
+
+// operators an attacker can apply to a SIGNED envelope as well: namespace declarations for prefixes
+// nobody uses are dropped by exclusive canonicalisation, so the signature still verifies
+var c20SignedSafe = map[string]bool{"nsdecl-id-after": true, "nsdecl-id-before": true, "nsdecl-all-after": true}
 
 // the SPs behind the router share one decryption key (anyone can encrypt to its certificate)
 const c20SPKey = 4
@@ -32,7 +37,7 @@ func init() {
 			"oracle: whenever validation under any configured SP accepts, the pre-decode succeeded and reports the same ID, InResponseTo, Destination, Version, Issuer, so the routed-to configuration is the accepting one; distinct = shape hash (kind, placement, layout, envelope ops, presentation, outcomes)",
 		Directed:   c20Directed,
 		Run:        c20Run,
-		MustHit:    []string{"kind=Response", "kind=LogoutResponse", "op=dup-id", "op=shadow-id-after", "op=second-issuer-last", "op=second-issuer-first", "op=nested-issuer", "op=comment-in-issuer", "compressed", "skip_config", "accepted_with_ops", "route_to_B", "op=pi-in-issuer", "issuer_unconfigured", "op=encrypted-issuer-after-issuer", "op=encrypted-issuer-last"},
+		MustHit:    []string{"kind=Response", "kind=LogoutResponse", "op=dup-id", "op=shadow-id-after", "op=second-issuer-last", "op=second-issuer-first", "op=nested-issuer", "op=comment-in-issuer", "compressed", "skip_config", "accepted_with_ops", "route_to_B", "op=pi-in-issuer", "issuer_unconfigured", "op=encrypted-issuer-after-issuer", "op=encrypted-issuer-last", "op=nsdecl-id-after", "signed_envelope_shaped"},
 		RandomRuns: map[string]int{"quick": 6000, "thorough": 80000},
 	})
 }
@@ -143,10 +148,13 @@ func c20Run(r *core.Run) {
 	// the adversary (or a sloppy IdP) shapes the envelope; only possible where it is not signed
 	envelopeFree := m.Sign == nil || skip
 	applied := ""
-	if envelopeFree {
+	{
 		for _, op := range []string{op1, op2} {
-			if op == "none" {
+			if op == "none" || (!envelopeFree && !c20SignedSafe[op]) {
 				continue
+			}
+			if !envelopeFree {
+				r.Probe("signed_envelope_shaped")
 			}
 			nx, ok := c20Apply(xml, op, m, issuers[1-who])
 			if ok {
@@ -289,6 +297,12 @@ func c20Apply(xml, op string, m *world.LResponse, other string) (string, bool) {
 		return strings.Replace(xml, idAttr(q), `Version=`+q+`1.1`+q+` `+idAttr(q), 1), true
 	case "dup-inresponseto":
 		return strings.Replace(xml, idAttr(q), idAttr(q)+` InResponseTo=`+q+`_evil_irt`+q, 1), true
+	case "nsdecl-id-after":
+		return strings.Replace(xml, idAttr(q), idAttr(q)+` xmlns:ID=`+q+`_evil`+q, 1), true
+	case "nsdecl-id-before":
+		return strings.Replace(xml, idAttr(q), `xmlns:ID=`+q+`_evil`+q+` `+idAttr(q), 1), true
+	case "nsdecl-all-after":
+		return strings.Replace(xml, idAttr(q), idAttr(q)+` xmlns:ID=`+q+`_evil`+q+` xmlns:Destination=`+q+`https://evil.example/`+q+` xmlns:Version=`+q+`9`+q+` xmlns:InResponseTo=`+q+`_e`+q, 1), true
 	case "shadow-id-before":
 		return strings.Replace(xml, idAttr(q), `xmlns:x=`+q+`urn:x`+q+` x:ID=`+q+`_evil`+q+` `+idAttr(q), 1), true
 	case "shadow-id-after":
